@@ -52,6 +52,28 @@ class Effects:
             for s in self.prog.subclasses(c):
                 if s not in self.shared_classes:
                     self.shared_classes.append(s)
+        # classes that are instantiated only while a memoised value is built (token collection, grammar tables): every
+        # instance ends up in the shared memo, so the class is shared like the listed ones
+        self.build_only_classes = []
+        try:
+            memo_roots = [self.prog.funcs[k] for k in ALLOWED_SHARED_WRITES if k in self.prog.funcs]
+            build = self.cg.reachable(memo_roots)
+            # what runs at parse time other than through a memo function (whose work is building the shared value)
+            elsewhere, _ = parse_time_functions(ctx, with_loading=False, blocked={f.key for f in memo_roots})
+            build_only = {k for k in build if k not in elsewhere}
+            ctor_sites = {}
+            for f in self.prog.funcs.values():
+                for site in self.cg.sites[f.key]:
+                    r = self.cg.callee_object(f, site.node.func)
+                    if isinstance(r, Cls):
+                        ctor_sites.setdefault(r, set()).add(f.key)
+            for c, sites in sorted(ctor_sites.items(), key=lambda kv: kv[0].qual):
+                if sites and sites <= build_only and c not in self.shared_classes \
+                        and not any(isinstance(b, str) and b in ('Exception', 'BaseException') for b in c.mro):
+                    self.shared_classes.append(c)
+                    self.build_only_classes.append(c)
+        except AnalysisError:
+            pass
         # module-level mutable bindings
         self.shared_globals = {}
         for rel, mod in self.prog.mods.items():
@@ -265,7 +287,7 @@ class Effects:
 
 
 # ---------------------------------------------------------------------------
-def parse_time_functions(ctx, include_normalizers=True, with_loading=True, only=None):
+def parse_time_functions(ctx, include_normalizers=True, with_loading=True, only=None, blocked=()):
     """Functions reachable from the non-caching parse / tokenize / issue-listing entry points.
     Calls of Grammar.parse that are only reachable under a true `cache` / `diff_cache` test are dropped."""
     prog, cg = ctx.prog, ctx.cg
@@ -302,6 +324,8 @@ def parse_time_functions(ctx, include_normalizers=True, with_loading=True, only=
         if k in seen:
             continue
         seen.add(k)
+        if k in blocked:
+            continue                    # reached, but what it calls is not followed
         for s in sorted(edges.get(k, ())):
             if s not in seen:
                 prev.setdefault(s, k)
@@ -332,6 +356,7 @@ def eff_1(ctx, rep, only=None, minimum=60):
     eff = Effects(ctx)
     reach, prev = parse_time_functions(ctx, only=only)
     rep.stat('shared_classes', sorted(c.name for c in eff.shared_classes))
+    rep.stat('classes_instantiated_only_while_building_a_memo', sorted(c.name for c in eff.build_only_classes))
     rep.stat('shared_module_globals', sorted('%s:%s' % k for k in eff.shared_globals))
     rep.stat('exclusive_shared_attributes', sorted(eff.exclusive))
     rep.stat('parse_time_functions', len(reach))
@@ -806,3 +831,126 @@ def eff_6(ctx, rep):
     rep.stat('memo_wrappers_seen', n)
     rep.ob('EFF-6', 'parso', '<package>', 'memoising wrappers in the package: %d' % n, True,
            reason='every one of them wraps a callable with an immutable result' if n else 'none present')
+
+
+# ---------------------------------------------------------------------------
+# LMEMO-1: the key of a memo kept in a local dict determines what is stored under it
+# ---------------------------------------------------------------------------
+def _paths(e, params, defs, seen=None, depth=0):
+    """Access paths rooted at parameters that the value of ``e`` depends on: ('p', 'attr'), ('p', '<type>'), ('p',)."""
+    out = set()
+    seen = seen if seen is not None else set()
+    if e is None or depth > 6:
+        return out
+
+    def visit(x):
+        if isinstance(x, ast.Attribute) and isinstance(x.value, ast.Name) and x.value.id in params:
+            if isinstance(getattr(x, '_parent', None), ast.Call) and x._parent.func is x:
+                out.add((x.value.id,))                      # a method call: may read anything of the object
+            else:
+                out.add((x.value.id, x.attr))
+            return
+        if isinstance(x, ast.Call) and isinstance(x.func, ast.Name) and x.func.id in ('type', 'isinstance') and x.args \
+                and isinstance(x.args[0], ast.Name) and x.args[0].id in params:
+            out.add((x.args[0].id, '<type>'))
+            for a in x.args[1:]:
+                visit(a)
+            return
+        if isinstance(x, ast.Name):
+            if x.id in params:
+                out.add((x.id,))
+            elif x.id in defs and x.id not in seen:
+                seen.add(x.id)
+                for v, tests in defs[x.id]:
+                    out.update(_paths(v, params, defs, seen, depth + 1))
+                    for t in tests:
+                        out.update(_paths(t, params, defs, seen, depth + 1))
+            return
+        for c in ast.iter_child_nodes(x):
+            visit(c)
+    visit(e)
+    return out
+
+
+def lmemo_sites(fn_node, local_dicts):
+    """[(store node, key paths, value paths, missing)] for stores D[K] = V into activation-local dicts."""
+    params = {a.arg for a in fn_node.args.posonlyargs + fn_node.args.args + fn_node.args.kwonlyargs}
+    defs = {}
+    for n in walk_own(fn_node):
+        tests = []
+        p = getattr(n, '_parent', None)
+        while p is not None and p is not fn_node:
+            if isinstance(p, (ast.If, ast.While)):
+                tests.append(p.test)
+            p = getattr(p, '_parent', None)
+        if isinstance(n, ast.Assign):
+            for t in n.targets:
+                if isinstance(t, ast.Name):
+                    defs.setdefault(t.id, []).append((n.value, tests))
+        elif isinstance(n, ast.AugAssign) and isinstance(n.target, ast.Name):
+            defs.setdefault(n.target.id, []).append((n.value, tests))
+        elif isinstance(n, ast.AnnAssign) and isinstance(n.target, ast.Name) and n.value is not None:
+            defs.setdefault(n.target.id, []).append((n.value, tests))
+    out = []
+    for n in walk_own(fn_node):
+        if isinstance(n, ast.Assign) and len(n.targets) == 1 and isinstance(n.targets[0], ast.Subscript) \
+                and isinstance(n.targets[0].value, ast.Name) and n.targets[0].value.id in local_dicts:
+            d = n.targets[0].value.id
+            # a lookup in the same dict makes it a memo (not a plain table that is being filled)
+            looked_up = any(isinstance(x, ast.Call) and isinstance(x.func, ast.Attribute) and x.func.attr == 'get'
+                            and isinstance(x.func.value, ast.Name) and x.func.value.id == d for x in walk_own(fn_node)) or any(
+                isinstance(x, ast.Subscript) and isinstance(x.ctx, ast.Load) and isinstance(x.value, ast.Name) and x.value.id == d
+                for x in walk_own(fn_node))
+            if not looked_up:
+                continue
+            kp = _paths(n.targets[0].slice, params, {k: [(v, t) for v, t in vs if not _reads_dict(v, d)] for k, vs in defs.items()})
+            vp = _paths(n.value, params, {k: [(v, t) for v, t in vs if not _reads_dict(v, d)] for k, vs in defs.items()})
+            covered = set(kp)
+            missing = sorted(x for x in vp if x not in covered and (x[0],) not in covered)
+            out.append((n, kp, vp, missing))
+    return out
+
+
+def _reads_dict(v, d):
+    return any(isinstance(x, ast.Name) and x.id == d for x in ast.walk(v))
+
+
+def lmemo_1(ctx, rep):
+    rep.rule('LMEMO-1', 'a memo kept in a dict that lives for one activation (looked up and filled inside a nested function): what '
+                        'is stored under a key is computed only from what the key is built from - attribute by attribute '
+                        '(`type(node)` covers isinstance tests, `node.type` covers reads of node.type, nothing covers '
+                        'node.token_type)')
+    probe_src = ("def outer(root):\n    heads = {}\n    def fmt(node):\n        key = type(node), node.type\n        head = heads.get(key)\n"
+                 "        if head is None:\n            head = type(node).__name__\n            if isinstance(node, E):\n"
+                 "                head += node.token_type\n            heads[key] = head\n        return head\n    return fmt(root)\n")
+    probe = ast.parse(probe_src).body[0]
+    for parent in ast.walk(probe):
+        for child in ast.iter_child_nodes(parent):
+            child._parent = parent
+    inner = [n for n in probe.body if isinstance(n, ast.FunctionDef)][0]
+    got = lmemo_sites(inner, {'heads'})
+    if len(got) != 1 or got[0][3] != [('node', 'token_type')]:
+        raise AnalysisError('LMEMO-1: the matcher does not report its built-in example (%s)' % [g[3] for g in got])
+    n = 0
+    for f in sorted(ctx.prog.funcs.values(), key=lambda f: f.key):
+        # dicts created in this function or in an enclosing one (closure memo)
+        local = set()
+        g = f
+        while g is not None:
+            for st in walk_own(g.node):
+                if isinstance(st, (ast.Assign, ast.AnnAssign)):
+                    tg = st.targets[0] if isinstance(st, ast.Assign) else st.target
+                    v = st.value
+                    if isinstance(tg, ast.Name) and v is not None and (
+                            (isinstance(v, ast.Dict) and not v.keys) or (isinstance(v, ast.Call) and norm(v.func) in ('dict', 'OrderedDict', 'collections.OrderedDict') and not v.args)):
+                        local.add(tg.id)
+            g = g.outer
+        if not local:
+            continue
+        for store, kp, vp, missing in lmemo_sites(f.node, local):
+            n += 1
+            rep.ob('LMEMO-1', f.mod.rel, f.qual, 'memo store %s' % norm(store), not missing,
+                   'the stored value depends on %s, the key only on %s: two objects with the same key but a different %s share one '
+                   'entry' % (['.'.join(m) for m in missing], sorted('.'.join(k) for k in kp), '.'.join(missing[0]) if missing else ''),
+                   witness=['.'.join(m) for m in missing] or None)
+    rep.ob('LMEMO-1', 'parso', '<package>', 'activation-local memos in the package: %d' % n, True)
